@@ -53,7 +53,7 @@ Frame == CASE Universe \in {"tok20.top", "tok31.top"}   -> "top"
            [] OTHER                                      -> "raw"
 MaxTokLen == IF IsTok THEN atoi(IOEnv.MAXLEN) ELSE 0
 \* UNIVERSE = fam.<family>: the index-addressed families of structured programs (FamCase)
-FamUniverses == {"fam.nest", "fam.nestraw", "fam.nestsolo", "fam.place", "fam.cyc", "fam.selfty"}
+FamUniverses == {"fam.nest", "fam.nestraw", "fam.nestsolo", "fam.place", "fam.cyc", "fam.selfty", "fam.text", "fam.entry"}
 IsFam == Universe \in FamUniverses
 FamName == SubSeq(Universe, 5, Len(Universe))
 Total == IF IsTok THEN NumTokenStrings(Alpha, MaxTokLen) ELSE IF IsFam THEN FamSize(FamName) ELSE N
